@@ -39,7 +39,7 @@ TRUSTED = [
     "C06 threads(): os.listdir of the task directory is scripted (shuffled order); a vanished thread = listed directory without stat file (ENOENT), or _pslinux.open_binary patched for that one path to raise ProcessLookupError / to return a file whose read() raises it (ESRCH); 'process gone at the end' = os.stat(/proc/<pid>) and os.path.exists(/proc/<pid>/stat) fail while the fake procfs still serves the file (no zombie records in that sub-family)",
 ]
 MANIFEST = {
-    "level_text": "Machine-checked Lean 4 proofs that the model of _parse_stat_file/name/ppid/status/cpu_times/create_time/cpu_num/terminal and of threads() inverts the kernel's stat renderer for EVERY comm byte string (any bytes, any number of parentheses, blanks, newlines), every state letter, unbounded counters, old-kernel records without the trailing fields (C06_stat_roundtrip and its per-method corollaries, C06_threads_exact, C06_old_kernel_iowait_zero), that PROC_STATUSES is the documented letter table (C06_status_letter_map, decide over the generated dict), and that uids/gids/num_threads/num_ctx_switches extract the real lines of a status file rendered with the kernel's Name: escaping for every name (C06_status_extract, C06_ctx_switches_extract), with groups that accept exactly non-empty ASCII-digit runs so that no byte string can make them raise ValueError (C06_status_tokens_digits_only, C06_status_match_shape). Round 2 adds the code around the parsers: terminal() through the real get_terminal_map over an abstract /dev in any listing order with vanishing entries and aliases (C06_terminal_map_exact_code: TerminalMapExact_Full for the code as it is, non-device files included, since get_terminal_map tests S_ISCHR - fact tmapChecksChr pinned by xcfg_good / cfg_tmap_checks_chr; refuted for the configuration without the test by a regular file with st_rdev 0, C06_terminal_nondevice_counterexample), histories of calls in one interpreter: the memoised map answers, i.e. every call is exact for the /dev of the FIRST terminal() call (C06_terminal_memoized, C06_terminal_first_scan_wins) and for the current /dev whenever /dev did not change (C06_terminal_unchanged_dev_exact); C06_terminal_stale_counterexample only characterises the memoisation (a pty created later is not seen; by design, beyond the property's quantifier), create_time() end to end from the text of /proc/stat and /proc/<pid>/stat with the BOOT_TIME pin (C06_boot_time_exact, C06_create_time_end_to_end, C06_create_time_uses_pinned_boot_time), and the VALUE and ORDER of threads() for every os.listdir order and every set of threads that vanish mid-scan (C06_threads_order: string order of the names; C06_threads_value, C06_threads_gone, C06_threads_old_kernel; C06_threads_value_any_signal / C06_threads_gone_any_signal: the same for every assignment of vanish signals - FileNotFoundError on open or ProcessLookupError on open/read - to the ended threads; C06_threads_liveness_checked_only_after_vanish), and the falsy BOOT_TIME pin 0.0 (C06_create_time_zero_boot_time_rereads, C06_create_time_two_calls: the full two-call history over any two /proc/stat texts). The theorems hold for the configuration cfg_good, a proof obligation fed by translator facts (indices, find/rfind, regex keys, anchoring and separator form - 'exactly one tab' is a fact, not a model constant -, binary open mode; cfg_status_patterns: the exact source of the four compiled status regexes as the imported module holds them, so that any edit of a pattern breaks the obligation; xcfg_good: glob patterns, FileNotFoundError guard, memoize, btime key/index, cached boot time, sort, vanish handling for both exception classes, initial value of the hit_enoent flag); for the pre-fix configurations the negations are proved with concrete witnesses (thread named `a) b`; process named `Uid:\\t0\\t0\\t0`; text-mode reading with `\\r`). Tie: translator + differential run of the real Process methods over a fake procfs and a redirected /dev, called plainly, twice inside oneshot() (every getter on warm caches, the platform create_time()/ppid() included), through as_dict(), on the objects of process_iter() and through process_iter(attrs).info; Audit round: every tick theorem carries 0 < tck and needs it (C06_zero_tick_rate_raises: ZeroDivisionError at 0, no x/0 = 0 artefact); the PUBLIC name() with a non-empty command line (C06_public_name_exact: documented rule for 15-byte names; C06_public_name_short_is_comm: a shorter comm is returned byte for byte whatever argv[0] is; C06_public_name_extends_comm); histories of ANY length of create_time() and boot_time() calls interleaved over changing /proc/stat (C06_time_call_history); the report order of threads() restated with List.Lex (C06_threads_order_lex); anchors that are defining expressions pinned by their source text (cfg_source_anchors: CLOCK_TICKS = os.sysconf('SC_CLK_TCK'), the single S_ISCHR condition of get_terminal_map, the three guards and the source of the public name rule, no extra regex flags). FLOATS: all theorems are about exact rationals; the rounding of the doubles the code computes is bounded by C06_tick_quotient_rounding_bound / C06_create_time_rounding_bound under the explicit hypothesis of correctly rounded operations, and that bound is the tolerance of the correspondence. HISTORIES on one Process object (seeded round 5): the caching machinery between the public getters and the parsers - Process.oneshot(), memoize_when_activated, oneshot_enter/_exit - is modelled (two _cache slots, memoised stat parse / status text / cpu_times / ppid / uids) with the calls oneshot() reaches on entry, on a normal exit and when an exception propagates out of the block as translator facts (symbolic walk over the generator: hcfg_good, cfg_oneshot_anchors); C06_history_exact: for every history of any length - new records published in between, getters, blocks entered, nested, left normally or by an exception - a getter called outside every block reports exactly the record the kernel publishes at that moment, a getter inside a block a record published while the block was open (Spec/C06Hist.lean Conforms); refuted for the configuration whose platform teardown is not reached on an exception exit (C06_history_exc_exit_counterexample). The correspondence plays such histories on a real Process object with real nested with-statements (structured, random and exhaustive small families). Thread names are explored on their own (exhaustive short names and `x) yz` forms for secondary threads, live task/<tid>/stat records of threads that renamed themselves).",
+    "level_text": "Machine-checked Lean 4 proofs that the model of _parse_stat_file/name/ppid/status/cpu_times/create_time/cpu_num/terminal and of threads() inverts the kernel's stat renderer for EVERY comm byte string (any bytes, any number of parentheses, blanks, newlines), every state letter, unbounded counters, old-kernel records without the trailing fields (C06_stat_roundtrip and its per-method corollaries, C06_threads_exact, C06_old_kernel_iowait_zero), that PROC_STATUSES is the documented letter table (C06_status_letter_map, decide over the generated dict), and that uids/gids/num_threads/num_ctx_switches extract the real lines of a status file rendered with the kernel's Name: escaping for every name (C06_status_extract, C06_ctx_switches_extract), with groups that accept exactly non-empty ASCII-digit runs so that no byte string can make them raise ValueError (C06_status_tokens_digits_only, C06_status_match_shape). Round 2 adds the code around the parsers: terminal() through the real get_terminal_map over an abstract /dev in any listing order with vanishing entries and aliases (C06_terminal_map_exact_code: TerminalMapExact_Full for the code as it is, non-device files included, since get_terminal_map tests S_ISCHR - fact tmapChecksChr pinned by xcfg_good / cfg_tmap_checks_chr; refuted for the configuration without the test by a regular file with st_rdev 0, C06_terminal_nondevice_counterexample), histories of calls in one interpreter: the memoised map answers, i.e. every call is exact for the /dev of the FIRST terminal() call (C06_terminal_memoized, C06_terminal_first_scan_wins) and for the current /dev whenever /dev did not change (C06_terminal_unchanged_dev_exact); C06_terminal_stale_counterexample only characterises the memoisation (a pty created later is not seen; by design, beyond the property's quantifier), create_time() end to end from the text of /proc/stat and /proc/<pid>/stat with the BOOT_TIME pin (C06_boot_time_exact, C06_create_time_end_to_end, C06_create_time_uses_pinned_boot_time), and the VALUE and ORDER of threads() for every os.listdir order and every set of threads that vanish mid-scan (C06_threads_order: string order of the names; C06_threads_value, C06_threads_gone, C06_threads_old_kernel; C06_threads_value_any_signal / C06_threads_gone_any_signal: the same for every assignment of vanish signals - FileNotFoundError on open or ProcessLookupError on open/read - to the ended threads; C06_threads_liveness_checked_only_after_vanish), and the BOOT_TIME pin as the code tests it since /repo 29257b1 (`BOOT_TIME if BOOT_TIME is not None else boot_time()`, fact createBoot in {or, isNotNone, fresh, other:<text>} pinned to isNotNone by xcfg_good / cfg_create_boot_is_not_none): ANY pinned value, 0.0 included, is used and /proc/stat is not looked at (C06_create_time_uses_pinned_boot_time without a non-zero hypothesis, C06_create_time_zero_pin_is_used, C06_create_time_two_calls: the second call adds the btime the first call read whatever bytes /proc/stat holds by then); the truthiness shape `BOOT_TIME or boot_time()` of older trees is kept as a what-if configuration xcfgOr with its own true description (C06_create_time_zero_boot_time_rereads, C06_or_create_time_uses_nonzero_pin, C06_or_create_time_two_calls) and a proof that it breaks the promise (C06_time_history_or_counterexample: pin 0, clock stepped to btime 1). The theorems hold for the configuration cfg_good, a proof obligation fed by translator facts (indices, find/rfind, regex keys, anchoring and separator form - 'exactly one tab' is a fact, not a model constant -, binary open mode; cfg_status_patterns: the exact source of the four compiled status regexes as the imported module holds them, so that any edit of a pattern breaks the obligation; xcfg_good: glob patterns, FileNotFoundError guard, memoize, btime key/index, the is-not-None test of the cached boot time, sort, vanish handling for both exception classes, initial value of the hit_enoent flag); for the pre-fix configurations the negations are proved with concrete witnesses (thread named `a) b`; process named `Uid:\\t0\\t0\\t0`; text-mode reading with `\\r`). Tie: translator + differential run of the real Process methods over a fake procfs and a redirected /dev, called plainly, twice inside oneshot() (every getter on warm caches, the platform create_time()/ppid() included), through as_dict(), on the objects of process_iter() and through process_iter(attrs).info; Audit round: every tick theorem carries 0 < tck and needs it (C06_zero_tick_rate_raises: ZeroDivisionError at 0, no x/0 = 0 artefact); the PUBLIC name() with a non-empty command line (C06_public_name_exact: documented rule for 15-byte names; C06_public_name_short_is_comm: a shorter comm is returned byte for byte whatever argv[0] is; C06_public_name_extends_comm); histories of ANY length of create_time() and boot_time() calls interleaved over changing /proc/stat (C06_time_call_history, C06_time_history_pinned_full: every create_time() adds the btime the FIRST call of the interpreter pinned, 0 included — the promise TimeOp.promised is written from the property, not from the extracted configuration); the report order of threads() restated with List.Lex (C06_threads_order_lex); anchors that are defining expressions pinned by their source text (cfg_source_anchors: CLOCK_TICKS = os.sysconf('SC_CLK_TCK'), the single S_ISCHR condition of get_terminal_map, the three guards and the source of the public name rule, no extra regex flags). FLOATS: all theorems are about exact rationals; the rounding of the doubles the code computes is bounded by C06_tick_quotient_rounding_bound / C06_create_time_rounding_bound under the explicit hypothesis of correctly rounded operations, and that bound is the tolerance of the correspondence. HISTORIES on one Process object (seeded round 5): the caching machinery between the public getters and the parsers - Process.oneshot(), memoize_when_activated, oneshot_enter/_exit - is modelled (two _cache slots, memoised stat parse / status text / cpu_times / ppid / uids) with the calls oneshot() reaches on entry, on a normal exit and when an exception propagates out of the block as translator facts (symbolic walk over the generator: hcfg_good, cfg_oneshot_anchors); C06_history_exact: for every history of any length - new records published in between, getters, blocks entered, nested, left normally or by an exception - a getter called outside every block reports exactly the record the kernel publishes at that moment, a getter inside a block a record published while the block was open (Spec/C06Hist.lean Conforms); refuted for the configuration whose platform teardown is not reached on an exception exit (C06_history_exc_exit_counterexample). The correspondence plays such histories on a real Process object with real nested with-statements (structured, random and exhaustive small families). Thread names are explored on their own (exhaustive short names and `x) yz` forms for secondary threads, live task/<tid>/stat records of threads that renamed themselves).",
     "level_note": "Trusted: Lean kernel + {propext, Classical.choice, Quot.sound}; translator; correspondence harness; kernel renderers (validated against the live kernel each run); CPython int/float/split/re modelled; theorems over exact rationals; doubles compared within the proved rounding bound (2u+u^2 / 3u+3u^2+u^3, u = 2^-53) under the assumption that float() and / are correctly rounded.",
     "technique": "Lean 4 round-trip proofs parse(render r) = view r over all byte strings + translator-fed proof obligation + differential correspondence through a fake procfs",
     "design_ref": "DESIGN.md §5 C06",
@@ -345,7 +345,9 @@ def add_world(case, rng):
     case["tmap"] = []
     case["procstat"] = gen_procstat(rng, case["btime"])
     if rng.random() < 0.3 or case["btime"] == 0:
-        # btime 0: BOOT_TIME is pinned to 0.0, which is falsy in `BOOT_TIME or boot_time()`: the second call re-reads
+        # btime 0: BOOT_TIME is pinned to 0.0 — the second call must still add the pinned 0.0 and not the btime of
+        # the rewritten /proc/stat (a truthiness test `BOOT_TIME or boot_time()` would re-read: these histories are
+        # exactly what tells the two shapes of create_time() apart, so every btime-0 case gets a second /proc/stat)
         case["procstat2"] = gen_procstat(rng, rng.choice([case["btime"] + 1, case["btime"] + 3600, 1, 2 ** 31]))
     threads = list(case["threads"])
     if rng.random() < 0.15:
@@ -1382,7 +1384,7 @@ def case_features(case):
     if case.get("btime") == 0:
         f.add("btime:zero")
         if "procstat2" in case:
-            f.add("procstat2:reread-after-zero-btime")
+            f.add("procstat2:second-call-after-zero-btime-pin")
     if "listing" in case and len(case["listing"]) > 1:
         f.add("listing:in-name-order" if case["listing"] == sorted(case["listing"], key=str) else "listing:not-in-name-order")
         if sorted(case["listing"], key=str) != sorted(case["listing"]):
